@@ -49,7 +49,8 @@ def scen_order(ch, params, out):
     vs = variants(n)
 
     def run(ss):
-        return pipeline.infer({"Root": copy.deepcopy(ss)}, merge=c01.merge_policy(merge), dkr=[dkr] if dkr else None)[1]
+        kw = {"str_registry": c01.str_registry(params["registry"])} if params.get("registry") else {}
+        return pipeline.infer({"Root": copy.deepcopy(ss)}, merge=c01.merge_policy(merge), dkr=[dkr] if dkr else None, **kw)[1]
     try:
         c1 = oracles.canon_registry(run(samples))
     except Exception:
@@ -207,6 +208,8 @@ def parts(tier):
                 CH("merge_order", "vflib.props.c07:scen_merge_order", {"models": 4}, shards=16, timeout=170, path_timeout=30),
                 CH("merge_order_real_comparators", "vflib.props.c07:scen_merge_order_real", {"keys": 4}, shards=16, timeout=170, path_timeout=30),
                 CH("order_literal_limits", "vflib.props.c07:scen_order", {"kinds": "KINDS_LITORDER", "samples": 3, "symbolic_leaves": False},
+                   shards=16, timeout=170, path_timeout=60, mode="CH-E"),
+                CH("order_datetime_strings", "vflib.props.c07:scen_order", {"kinds": "KINDS_DATEORDER", "samples": 3, "symbolic_leaves": False, "registry": "datetime"},
                    shards=16, timeout=170, path_timeout=60, mode="CH-E"),
                 CH("many_strings_at_the_literal_limit", "vflib.props.c07:scen_many_strings", {}, shards=15, timeout=170, path_timeout=60, mode="CH-E"),
                 CH("order_objects", "vflib.props.c07:scen_order", {"kinds": "KINDS_ORDER2", "samples": 3, "dkr": [None, "^\\d+$"], "symbolic_leaves": False},
